@@ -167,6 +167,7 @@ def plan(ctx):
                 jobs.append(("rand %s/%s" % (kind, route), ["random", "-kind", kind, "-route", route, "-n", n, "-ops", "1200", "-seed", seed], 300))
             else:
                 jobs.append(("rand %s/%s" % (kind, route), ["random", "-kind", kind, "-route", route, "-n", "14", "-ops", "10000", "-seed", seed], 840))
+    jobs.append(("bigsets", ["bigsets", "-n", "36" if q else "900", "-seed", seed], 600))
     jobs.append(("programs", ["programs", "-n", "200" if q else "4000", "-maxops", "30", "-seed", seed], 600))
     jobs.append(("sample", ["sample", "-n", "60" if q else "1200", "-maxops", "28" if q else "40", "-seed", seed], 300))
     return jobs
@@ -235,7 +236,7 @@ def run(ctx):
                 # a crash / timeout of the harness on this tree is itself an observation
                 ctx.broken("harness:" + name, "harness exited with %s: %s" % (rc, err[-600:]))
             ctx.log("%-34s %s" % (name, "; ".join(
-                "%s histories, %s mismatches" % (l.get("histories"), l.get("mismatches")) for l in lines if l.get("kind") in ("exh", "rand", "prog")) or "%d lines" % len(lines)))
+                "%s histories, %s mismatches" % (l.get("histories"), l.get("mismatches")) for l in lines if l.get("kind") in ("exh", "rand", "prog", "big")) or "%d lines" % len(lines)))
         hs, good, (bad_model, bad_spec) = fut_eval.result()
 
     dist = {}
@@ -257,7 +258,7 @@ def run(ctx):
                                         "hashes": l["hashes"], "init": l["init"], "ops": ops, "at": l.get("at"),
                                         "got": l.get("got"), "want": l.get("want"), "msg": l.get("msg"),
                                         "program": l.get("program"), "keys": l.get("keys")})
-            elif k in ("exh", "rand", "prog"):
+            elif k in ("exh", "rand", "prog", "big"):
                 dist[name] = l.get("histories", 0)
                 histories += l.get("histories", 0)
                 evaluations += l.get("op_executions", 0)
@@ -267,8 +268,8 @@ def run(ctx):
                     cover[f] += c.get(f, 0) * scale
                 for f in ("max_chain_buckets", "max_live_keys"):
                     cover[f] = max(cover[f], c.get(f, 0))
-                if k == "rand":
-                    dist[name + " by hash distribution"] = l.get("distribution")
+                if k in ("rand", "big"):
+                    dist[name + " by hash distribution" if k == "rand" else name + " by kind/route"] = l.get("distribution")
 
     # ---- Coq-sized sample: model correspondence and Spec.v oracle
     for h in hs:
@@ -313,7 +314,7 @@ def run(ctx):
     cov = {
         "evaluations": evaluations + sum(len(h["ops"]) for h in good),
         "distinct_nontrivial": histories + nontrivial,
-        "rule": "every operation history up to the stated length over 5 keys (3 sharing one hash; configurations zero3 = shared hash 0, same5 = all five equal, prefill = the 3 keys share the hash of 7 resident keys of which 2 were deleted) is enumerated, each distinct; alphabets: core = insert/delete x 5 keys, popfirst, clear; full = core + setdefault x 5, update, union (dict) / update, union, intersection, difference, symmetric_difference by method with duplicates and by operator (set); for sets issubset / issuperset / the six comparison operators are queried after the last operation as well; compared with a Go association list after the last operation of every history (all prefixes are histories too): output, len, item order, lookup of all 5 keys; random histories: compared after every operation; programs: histories written as Starlark source over built-in key types (short / long strings, small / big ints, tuples, None, True) including keyword arguments of dict.update, executed by the interpreter, items compared after every statement; sample histories: every observation evaluated in Coq against Concrete.v and Spec.v. distinct_nontrivial = enumerated histories + random histories + sample histories with >= 5 operations",
+        "rule": "every operation history up to the stated length over 5 keys (3 sharing one hash; configurations zero3 = shared hash 0, same5 = all five equal, prefill = the 3 keys share the hash of 7 resident keys of which 2 were deleted) is enumerated, each distinct; alphabets: core = insert/delete x 5 keys, popfirst, clear; full = core + setdefault x 5, update, union (dict) / update, union, intersection, difference, symmetric_difference by method with duplicates and by operator (set); for sets issubset / issuperset / the six comparison operators are queried after the last operation as well; compared with a Go association list after the last operation of every history (all prefixes are histories too): output, len, item order, lookup of all 5 keys; big collections (bigsets): tables of 8..64 chains with ONE chain of 65..200 entries (hashes equal modulo 2^12, some fully equal) next to populated chains, filled in shuffled order with deletions, then issubset / issuperset by method and the six comparison operators and every derived operation against second big collections (reversed, superset, subset missing one element of the long / a neighbour chain, shuffle with duplicates, nearly disjoint), both routes, compared after every operation; random histories: hash distributions include a heavy chain next to populated chains and interleave subset / superset / comparison queries against big second collections, compared after every operation; programs: histories written as Starlark source over built-in key types (short / long strings, small / big ints, tuples, None, True) including keyword arguments of dict.update, executed by the interpreter, items compared after every statement; sample histories: every observation evaluated in Coq against Concrete.v and Spec.v. distinct_nontrivial = enumerated histories + random histories + sample histories with >= 5 operations",
         "samples": samples, "distribution": dist, "structure_coverage": cover,
         "histories": histories + len(good),
         "model_mismatches": len(bad_model), "spec_mismatches": len(bad_spec),
